@@ -53,3 +53,137 @@ package server
 //@     invariant catOneFrame(m, received) && buflen(m.received) < catLen(m, received) && !supportedFC(cat(m, received, 7)) && cat(m, received, 7) < 128 ==> replyTo(m, received, response) && response[8] == 1 && handled == old(handled)
 //@     invariant catOneFrame(m, received) && buflen(m.received) < catLen(m, received) && supportedFC(cat(m, received, 7)) && (handled == old(handled) || lastHandleErr != nil) ==> replyTo(m, received, response)
 //@     invariant catOneFrame(m, received) && buflen(m.received) < catLen(m, received) && supportedFC(cat(m, received, 7)) && handled == old(handled) ==> response[8] == 3
+
+// ---------------------------------------------------------------------------------------------
+// server.go: environment (ASSUMED) and the sequential conjuncts of the lifecycle property C17
+
+//@ iface net.Listener.Accept() (conn net.Conn, err error)
+//@   modifies nothing
+//@   ensures err == nil ==> conn != nil
+//@   ghostset accepted := old(accepted) + ite(err == nil, int(1), int(0))
+//@   ghostset lastAcceptErr := err
+
+//@ iface net.Listener.Addr() (a net.Addr)
+//@   modifies nothing
+
+//@ iface net.Listener.Close() (err error)
+//@   modifies nothing
+
+//@ iface net.Conn.RemoteAddr() (a net.Addr)
+//@   modifies nothing
+
+//@ iface net.Conn.Close() (err error)
+//@   modifies nothing
+//@   ghostset closes := old(closes) + 1
+
+//@ iface net.Conn.SetReadDeadline(t time.Time) (err error)
+//@   modifies nothing
+
+//@ iface net.Conn.SetWriteDeadline(t time.Time) (err error)
+//@   modifies nothing
+
+//@ iface net.Conn.Read(p []byte) (n int, err error)
+//@   modifies p
+//@   ensures 0 <= n && n <= len(p)
+//@   ghostset connReads := old(connReads) + 1
+//@   ghostset lastReadN := n
+//@   ghostset lastReadBuf := p
+
+//@ iface net.Conn.Write(p []byte) (n int, err error)
+//@   requires[C15] connWrites < asmCalls && p == lastAsmOut && !isnil(p)
+//@   modifies nothing
+//@   ghostset connWrites := old(connWrites) + 1
+
+//@ iface server.PacketAssembler.ReceiveRead(ctx context.Context, received []byte, bytesRead int) (response []byte, closeConnection bool)
+//@   requires[C15] bytesRead == lastReadN && bytesRead > 0 && aliases(received, lastReadBuf, 0, lastReadN) && asmCalls == connWrites
+//@   modifies nothing
+//@   ghostset asmCalls := old(asmCalls) + ite(isnil(response), int(0), int(1))
+//@   ghostset lastAsmOut := response
+
+//@ iface server.RawReadTracer.Read(data []byte, n int, err error)
+//@   modifies nothing
+
+//@ iface context.Context.Done() (ch <-chan struct{})
+//@   modifies nothing
+
+//@ iface server.Server.OnServeFunc(addr net.Addr)
+//@   modifies nothing
+
+//@ iface server.Server.OnErrorFunc(err error)
+//@   modifies nothing
+//@   ghostset errorCbs := old(errorCbs) + 1
+
+//@ iface server.connection.onErrorFunc(err error)
+//@   modifies nothing
+//@   ghostset errorCbs := old(errorCbs) + 1
+
+//@ iface server.Server.OnAcceptConnFunc(ctx context.Context, remoteAddr net.Addr, connectionCount uint64) (err error)
+//@   requires[C17] connectionCount == uint64(liveCount + 1)
+//@   modifies nothing
+//@   ghostset acceptCbs := old(acceptCbs) + 1
+
+//@ iface server.Server.OnCloseConnFunc(ctx context.Context, remoteAddr net.Addr, isServerShutdown bool)
+//@   modifies nothing
+//@   ghostset closeCbs := old(closeCbs) + 1
+
+//@ iface server.Server.AssemblerCreatorFunc(handler ModbusHandler) (a PacketAssembler)
+//@   modifies nothing
+//@   ensures a != nil
+
+//@ func (s *Server) trackConn(c *connection, isAdd bool)
+//@   requires s != nil
+//@   requires[C17] muState == 0
+//@   safety[C17]
+//@   lockdiscipline[C17]
+//@   guarded[C17] activeConnections
+//@   modifies s.activeConnections, s.activeConnectionCount, tracks, untracks, liveCount
+//@   ensures[C17] muState == 0
+//@   ensures[C17] atomicval(s.activeConnectionCount) == old(atomicval(s.activeConnectionCount)) + ite(isAdd, int64(1), int64(-1))
+//@   ensures[C17] old(s.activeConnections) != nil ==> mapsize(s.activeConnections) == old(mapsize(s.activeConnections)) + ite(isAdd, int(1), int(-1))
+//@   ghostset tracks := old(tracks) + ite(isAdd, int(1), int(0))
+//@   ghostset liveCount := old(liveCount) + ite(isAdd, int64(1), int64(-1))
+//@   ghostset untracks := old(untracks) + ite(isAdd, int(0), int(1))
+
+//@ func (*Server).serve$3$1()
+//@   requires s != nil && conn != nil && c != nil && conn.conn != nil && conn.onErrorFunc != nil && ctx != nil && muState == 0
+//@   safety[C17]
+//@   modifies s.activeConnections, s.activeConnectionCount, tracks, untracks, closes, closeCbs, errorCbs, liveCount
+//@   ensures[C17.once] closes == old(closes) + 1 && untracks == old(untracks) + 1 && tracks == old(tracks)
+//@   ensures[C17.once] s.OnCloseConnFunc != nil ==> closeCbs == old(closeCbs) + 1
+//@   ensures[C17.once] s.OnCloseConnFunc == nil ==> closeCbs == old(closeCbs)
+
+//@ func (c *connection) handle(ctx context.Context)
+//@   requires c != nil && ctx != nil && c.conn != nil && c.assembler != nil && c.onErrorFunc != nil && asmCalls == connWrites
+//@   safety[C15,C17]
+//@   modifies c.isBeingHandled, connReads, connWrites, asmCalls, lastAsmOut, lastReadN, lastReadBuf, errorCbs, faults
+//@   ensures[C15] connWrites - old(connWrites) == asmCalls - old(asmCalls)
+//@   ensures[C17] closes == old(closes)
+//@   loop 0
+//@     modifies received, c.isBeingHandled, connReads, connWrites, asmCalls, lastAsmOut, lastReadN, lastReadBuf, errorCbs, faults
+//@     invariant[C15] asmCalls == connWrites
+//@     invariant len(received) == 300
+
+//@ func (*Server).serve$3(ctx context.Context, conn *connection)
+//@   requires s != nil && conn != nil && c != nil && ctx != nil && conn.conn != nil && conn.assembler != nil && conn.onErrorFunc != nil && asmCalls == connWrites && muState == 0
+//@   safety[C17]
+//@   structural[C17]
+//@   modifies conn.isBeingHandled, s.activeConnections, s.activeConnectionCount, connReads, connWrites, asmCalls, lastAsmOut, lastReadN, lastReadBuf, errorCbs, tracks, untracks, closes, closeCbs, faults, liveCount
+//@   ensures[C17.once] closes == old(closes) + 1 && untracks == old(untracks) + 1 && tracks == old(tracks)
+//@   ensures[C17.once] s.OnCloseConnFunc != nil ==> closeCbs == old(closeCbs) + 1
+//@   ensures[C17.once] s.OnCloseConnFunc == nil ==> closeCbs == old(closeCbs)
+
+//@ func (s *Server) serve(ctx context.Context, listener net.Listener, handler ModbusHandler) (err error)
+//@   requires s != nil && ctx != nil && listener != nil && muState == 0 && liveCount == atomicval(s.activeConnectionCount)
+//@   safety[C17]
+//@   lockdiscipline[C17]
+//@   guarded[C17] listener, activeConnections
+//@   modifies s.AssemblerCreatorFunc, s.listener, s.activeConnections, s.activeConnectionCount, accepted, lastAcceptErr, closes, tracks, untracks, acceptCbs, errorCbs, spawned, faults, liveCount
+//@   ensures[C17] err != nil && muState == 0
+//@   ensures[C17.shutdown] lastAcceptErr != nil && atomicval(s.isShutdown) ==> err == ErrServerClosed
+//@   ensures[C17.accounting] accepted - old(accepted) == (closes - old(closes)) + (spawned - old(spawned))
+//@   ensures[C17.accounting] tracks - old(tracks) == spawned - old(spawned) && untracks == old(untracks)
+//@   loop 0
+//@     modifies s.activeConnections, s.activeConnectionCount, accepted, lastAcceptErr, closes, tracks, untracks, acceptCbs, errorCbs, spawned, faults, liveCount
+//@     invariant muState == 0 && s.AssemblerCreatorFunc != nil && liveCount == atomicval(s.activeConnectionCount)
+//@     invariant[C17.accounting] accepted - old(accepted) == (closes - old(closes)) + (spawned - old(spawned))
+//@     invariant[C17.accounting] tracks - old(tracks) == spawned - old(spawned) && untracks == old(untracks)
